@@ -17,6 +17,8 @@ import SMGo.Proofs.SM4Block
 import SMGo.Proofs.SM4X2
 import SMGo.Proofs.SM4Key
 import SMGo.Proofs.SM4Inverse
+import SMGo.Proofs.ISAValSpec
+import SMGo.Proofs.ISAValTests
 namespace SMGo.Props.C05
 open SMGo
 
@@ -190,6 +192,86 @@ example : Model.SM4.cryptoBlockX2 tb (Spec.SM4.keySchedule exKey).reverse (exBlk
     = Spec.SM4.crypt (Spec.SM4.keySchedule exKey).reverse exBlk ++ Spec.SM4.crypt (Spec.SM4.keySchedule exKey).reverse exKey :=
   cryptoBlockX2_eq_spec _ (exBlk ++ exKey) (by rw [List.length_reverse]; exact Proofs.SM4.keySchedule_length _) (by decide)
 
+/-! ## ===== Assembly listings (amd64): the regenerated listing run by the value semantics =====
+
+  The statements below are about `Gen.ListAmd64Asm.*`, the listings that `go tool asm -S` prints for
+  /repo/sm4/asm_amd64.s (regenerated on every check), run by the instruction semantics of
+  `SMGo/Model/ISAVal.lean` (TRUSTED: the reading of the Intel SDM; compared with the real CPU on every check
+  by the harness streams `sm4.kernel`, `asm.expandkey`, `asm.ghash`, `asm.seal`, `asm.open`).
+  `kernelState g v k rk dst0 src` is the entry state of `cryptoBlockAsm*(rk, dst, src)`: general registers
+  `g`, vector registers `v`, opmask registers `k` hold anything; memory = the read-only symbols, the
+  round keys `rk` (numbers, stored as little-endian dwords), the destination buffer `dst0`, the input `src`. -/
+
+open Model.ISAVal in
+/-- **the listing of `cryptoBlockAsm` computes the SM4 block function of the specification**: for all 32
+    round keys, every 16-byte input, whatever the registers and the destination hold at entry, the run from the
+    first instruction to RET succeeds and leaves `Spec.SM4.crypt rk src` in the destination buffer.
+    Proved by symbolic execution of the listing: the listing decodes to prologue ++ 32 × `subRound` ++ epilogue
+    (`x1_decode`, by evaluation), each `subRound` block is the round function on dword 0 of the state registers
+    (`round_spec`, with the two GFNI instructions being the S-box by C18's `gfni_sbox`), the prologue and the
+    epilogue are the big-endian load / reversed store (`prologue_spec`, `epilogue_spec`). -/
+theorem asm_cryptoBlockAsm_eq_spec (g v k rk dst0 src : List Nat)
+    (hg : g.length = 16) (hv : v.length = 32) (hrk : rk.length = 32) (hrkb : ∀ x ∈ rk, x < 2 ^ 32)
+    (hsrc : src.length = 16) (hsb : ∀ x ∈ src, x < 256) (hdst : dst0.length = 16) :
+    runDst Gen.ListAmd64Asm.cryptoBlockAsm 2000 (kernelState g v k rk dst0 src)
+      = .ok ((Spec.SM4.crypt (rk.map (BitVec.ofNat 32)) (src.map UInt8.ofNat)).map (·.toNat)) :=
+  Proofs.ISAVal.kernelX1_eq_spec g v k rk dst0 src hg hv hrk hrkb hsrc hsb hdst
+
+open Model.ISAVal Proofs.ISAVal in
+/-- the `affine` macro (VGF2P8AFFINEQB with the pre-matrix, VGF2P8AFFINEINVQB with the post-matrix) is τ on
+    dword 0 of an X register: the S-box of the specification on each of its four bytes -/
+theorem asm_affine_is_tau (x : Nat) :
+    lane 32 0 (gfAffine true 16 211 POSTv (gfAffine false 16 62 PREv x))
+      = unlanes 8 ((lanes 8 4 (lane 32 0 x)).map Spec.SM4.sboxAlg) := by
+  rw [lane0_sbox, tauN]
+  congr 1
+  apply List.map_congr_left
+  intro b hb
+  exact sboxByte_eq b (mem_lanes_lt 8 4 _ b hb)
+
+open Model.ISAVal Proofs.ISAValTests in
+/-- TEST (one input, by evaluation in the kernel): the listing of `cryptoBlockAsm` on the worked example of
+    GB/T 32907 A.1 gives the standard's ciphertext -/
+theorem asm_test_X1_standard :
+    runDst Gen.ListAmd64Asm.cryptoBlockAsm 2000 (kernelState junkG junkV junkK rkStd (List.replicate 16 0) keyStd)
+      = .ok [0x68,0x1e,0xdf,0x34,0xd2,0x06,0x96,0x5e,0x86,0xb3,0xe9,0x4f,0x53,0x6e,0x42,0x46] :=
+  test_X1_standard
+
+open Model.ISAVal Proofs.ISAValTests in
+/-- TEST: the same with `dst == src` -/
+theorem asm_test_X1_inplace :
+    runDst Gen.ListAmd64Asm.cryptoBlockAsm 2000 (kernelStateInPlace junkG junkV junkK rkStd keyStd)
+      = .ok [0x68,0x1e,0xdf,0x34,0xd2,0x06,0x96,0x5e,0x86,0xb3,0xe9,0x4f,0x53,0x6e,0x42,0x46] :=
+  test_X1_inplace
+
+open Model.ISAVal Proofs.ISAValTests in
+/-- TEST: the listings of `cryptoBlockAsmX2 / X4 / X8 / X16` on 2 / 4 / 8 / 16 pairwise different blocks give
+    that many encryptions of the specification (every lane carries its own block) -/
+theorem asm_test_X2_X4_X8_X16 :
+    runDst Gen.ListAmd64Asm.cryptoBlockAsmX2 2000 (kernelState junkG junkV junkK rkStd (List.replicate 32 0) (blocks16.take 32))
+      = .ok (specBlocks rkStd (blocks16.take 32))
+    ∧ runDst Gen.ListAmd64Asm.cryptoBlockAsmX4 2000 (kernelState junkG junkV junkK rkStd (List.replicate 64 0) (blocks16.take 64))
+      = .ok (specBlocks rkStd (blocks16.take 64))
+    ∧ runDst Gen.ListAmd64Asm.cryptoBlockAsmX8 2000 (kernelState junkG junkV junkK rkStd (List.replicate 128 0) (blocks16.take 128))
+      = .ok (specBlocks rkStd (blocks16.take 128))
+    ∧ runDst Gen.ListAmd64Asm.cryptoBlockAsmX16 2000 (kernelState junkG junkV junkK rkStd (List.replicate 256 0) blocks16)
+      = .ok (specBlocks rkStd blocks16) :=
+  ⟨test_X2, test_X4, test_X8, test_X16⟩
+
+open Model.ISAVal Proofs.ISAValTests in
+/-- TEST: the listing of `expandKeyAsm` on the example key writes the round keys of the specification, forwards
+    into `enc` and backwards into `dec`; they are the round keys printed in the standard -/
+theorem asm_test_expandKey :
+    runExpandKey 2000 (expandKeyState junkG junkV junkK keyStd (List.replicate 128 0) (List.replicate 128 0))
+      = .ok (((Spec.SM4.keySchedule (keyStd.map UInt8.ofNat)).map (·.toNat)),
+             ((Spec.SM4.keySchedule (keyStd.map UInt8.ofNat)).reverse.map (·.toNat)))
+    ∧ (Spec.SM4.keySchedule (keyStd.map UInt8.ofNat)).map (·.toNat) = rkStd :=
+  ⟨test_expandKey, test_expandKey_standard⟩
+
+/- Not proved in general (only tested above and, on every check, against the CPU and the specification by the
+   harness): the listings of cryptoBlockAsmX2/X4/X8/X16 and of expandKeyAsm.  What is missing for them is named
+   in SMGo/Proofs/ISAValSpec.lean (end of file). -/
+
 end SMGo.Props.C05
 
 #print axioms SMGo.Props.C05.spec_vector_A1
@@ -211,3 +293,9 @@ end SMGo.Props.C05
 #print axioms SMGo.Props.C05.cryptoBlockX2_eq_spec
 #print axioms SMGo.Props.C05.C05_portable
 #print axioms SMGo.Props.C05.C05_portable_X2
+#print axioms SMGo.Props.C05.asm_cryptoBlockAsm_eq_spec
+#print axioms SMGo.Props.C05.asm_affine_is_tau
+#print axioms SMGo.Props.C05.asm_test_X1_standard
+#print axioms SMGo.Props.C05.asm_test_X1_inplace
+#print axioms SMGo.Props.C05.asm_test_X2_X4_X8_X16
+#print axioms SMGo.Props.C05.asm_test_expandKey
